@@ -282,6 +282,51 @@ def unit_calc_bin(U):
             U.prove("C12._bin_from_dict.%s#p%d" % (shape, p.index), text, p.pc, goal, {"start": s, "end": e}, replay=replay3)
 
 
+def unit_init_bin(U):
+    """the constructor: Feature(start=<int>, end=<int>) (no bin given) sets bin == bins(start, end) for EVERY pair of integers -
+    zero, negative, start > end included -; a bin that is given is kept; '.' / None coordinates give coordinates None"""
+    for shape in ("ints", "given"):
+        it = Interp()
+        it.contracts[B.bins] = bins_contract
+        s, e, g = z3.Int("start"), z3.Int("end"), z3.Int("given")
+        vars_ = {"start": s, "end": e, "given": g}
+
+        def run(ctx, shape=shape):
+            f = object.__new__(F.Feature)
+            kw = {"seqid": "c", "start": SInt(s), "end": SInt(e)}
+            if shape == "given":
+                kw["bin"] = SInt(g)
+            it.call(F.Feature.__init__, [f], kw)
+            return f
+
+        def replay(m, shape=shape):
+            cands = [(m.get("start", 1), m.get("end", 1)), (0, 1000), (1, 0), (0, 0), (-5, 3), (131072, 131073)]
+            for a, b in cands:
+                if shape == "given":
+                    f = F.Feature(start=a, end=b, bin=m.get("given", 7))
+                    exp = m.get("given", 7)
+                else:
+                    f = F.Feature(start=a, end=b)
+                    exp = S.bin1(a, b, "gff")
+                if f.bin != exp or f.start != a or f.end != b:
+                    return {"inputs": {"start": a, "end": b, "shape": shape}, "call": "Feature(start, end).bin", "expected": exp, "observed": f.bin, "violates": True}
+            return {"inputs": cands, "violates": False}
+        for p in U.explore(run, it):
+            if p.kind != "return":
+                U.prove("C12.init.noraise[%s]#p%d" % (shape, p.index), "the constructor raises nothing for integer coordinates (got %r)" % (p.value,), p.pc, z3.BoolVal(False), vars_, replay=replay)
+                continue
+            f = p.value
+            b = getattr(f, "bin", None)
+            okc = isinstance(f.start, SInt) and isinstance(f.end, SInt)
+            if shape == "ints":
+                goal = z3.And(Eq(b, S.bin1(s, e, "gff")), f.start.e == s, f.end.e == e) if okc and isinstance(b, (SInt, int)) else z3.BoolVal(False)
+                text = "Feature(start, end).bin == bins(start, end, one=True) and the coordinates are kept, for all integers"
+            else:
+                goal = z3.And(Eq(b, g), f.start.e == s, f.end.e == e) if okc and isinstance(b, (SInt, int)) else z3.BoolVal(False)
+                text = "a bin given to the constructor is kept"
+            U.prove("C12.init.bin[%s]#p%d" % (shape, p.index), text, p.pc, goal, vars_, replay=replay)
+
+
 def unit_calc_bin_twice(U):
     """calc_bin / astuple are functions of the feature alone: called for one feature and then for ANOTHER (any two
     coordinate pairs, same process), the second answer is bins() of the second - nothing remembered from the first"""
@@ -498,7 +543,7 @@ def unit_handed_out(U):
 
 UNITS = [("bounded.handed_out", unit_handed_out), ("bins[gff,one]", _unit_bins("gff", True)), ("bins[gff,set]", _unit_bins("gff", False)),
          ("bins[bed,one]", _unit_bins("bed", True)), ("bins[bed,set]", _unit_bins("bed", False)),
-         ("lemma.nest", unit_nest), ("calc_bin", unit_calc_bin), ("calc_bin_twice", unit_calc_bin_twice), ("bins_twice", unit_bins_twice), ("stored_bin", unit_stored_bin),
+         ("lemma.nest", unit_nest), ("init_bin", unit_init_bin), ("calc_bin", unit_calc_bin), ("calc_bin_twice", unit_calc_bin_twice), ("bins_twice", unit_bins_twice), ("stored_bin", unit_stored_bin),
          ("bounded.boundaries", unit_boundary)]
 
 
